@@ -26,7 +26,7 @@ ID = "C10"
 TECHNIQUE = "symbolic execution of the real NASimEnv.__init__/reset/step and get_space_bounds by z3 proxy values (cell-wise low <= cell <= high); action decoders run on symbolic values carried by each sampler type; replay with the real Box / numpy scalars"
 needs_reach = True
 EXTRA_STUBS = dyn.EXTRA_STUBS
-REQUIRED_WITNESSES = ['obs_step', 'obs_reset', 'carrier_npint', 'carrier_ndarray', 'carrier_int', 'carrier_list', 'negative_value']
+REQUIRED_WITNESSES = ['obs_step', 'obs_reset', 'carrier_npint', 'carrier_npint32', 'carrier_ndarray', 'carrier_int', 'carrier_list', 'negative_value']
 STUBS, ASSUMPTIONS = common.STUBS, common.ASSUMPTIONS
 BOUNDS = dict(quick="shapes [1,1],[2,1] with default and custom (+2,+3) address bounds; S=2,O=2,P=1; exploit / subnet scan / process scan on the first host; 4 observation modes; carriers int, numpy.int64, list, tuple, numpy.ndarray",
               thorough="adds [1,1,1],[1,2]; every action kind and target")
@@ -51,7 +51,7 @@ def queries(tier, seed=0):
                             qs.append(dict(kind=kind, name=nm, os=None, shape=sh, fully_obs=fo,
                                            flat_obs=fob, target=t, level='step'))
     for tsh in (Shape([2, 1], 2, 2, 1).to_json(), Shape([1, 2], 2, 2, 1, (5, 4)).to_json()):
-        for carrier in ('int', 'npint'):
+        for carrier in ('int', 'npint', 'npint32', 'npuint8'):
             qs.append(dict(kind='types', shape=tsh, flat_actions=True, carrier=carrier, target=[1, 0], no_reach=True))
         for carrier in ('list', 'tuple', 'ndarray'):
             qs.append(dict(kind='types', shape=tsh, flat_actions=False, carrier=carrier, target=[1, 0], no_reach=True))
@@ -80,9 +80,10 @@ def run(src, q):
     r.q = q
     if q['kind'] == 'types':
         import nasim.scenarios.utils as u
-        exploits = {'e0': {u.EXPLOIT_SERVICE: 's0', u.EXPLOIT_OS: None, u.EXPLOIT_PROB: 1.0,
+        # probabilities over the whole documented range [0, 1], boundaries included
+        exploits = {'e0': {u.EXPLOIT_SERVICE: 's0', u.EXPLOIT_OS: None, u.EXPLOIT_PROB: src.real('e0_prob', 0, 1),
                            u.EXPLOIT_COST: 1, u.EXPLOIT_ACCESS: 1}}
-        privescs = {'pe0': {u.PRIVESC_PROCESS: 'p0', u.PRIVESC_OS: 'o1', u.PRIVESC_PROB: 1.0,
+        privescs = {'pe0': {u.PRIVESC_PROCESS: 'p0', u.PRIVESC_OS: 'o1', u.PRIVESC_PROB: src.real('pe0_prob', 0, 1),
                             u.PRIVESC_COST: 1, u.PRIVESC_ACCESS: 2}}
         w = scen.build_world(src, shape, exploits=exploits, privescs=privescs, host_fw=False,
                              symbolic_values=False)
@@ -94,10 +95,12 @@ def run(src, q):
             if src.symbolic:
                 z = z3.Int('idx')
                 sx.assume(z3.And(z >= 0, z <= n - 1))
-                idx = sx.SymNpInt(z) if q['carrier'] == 'npint' else sx.SymNum(z)
+                npt = dict(npint='int64', npint32='int32', npuint8='uint8').get(q['carrier'])
+                idx = sx.SymNpInt(z, npt) if npt else sx.SymNum(z)
             else:
                 k = src.int('idx', 0, n - 1)
-                idx = _np.int64(k) if q['carrier'] == 'npint' else int(k)
+                npt = dict(npint='int64', npint32='int32', npuint8='uint8').get(q['carrier'])
+                idx = getattr(_np, npt)(k) if npt else int(k)
             arg = idx
         else:
             nvec = [int(x) for x in env.action_space.nvec]
